@@ -160,6 +160,14 @@ def gen(rng, tier, ctx):
         if env:
             op["env"] = env
         opl.append(op)
+    if klass != "collision" and rng.random() < 0.12:
+        # two batch runs at the same time on two different files, both saving into outputs/
+        ga = rng.sample(range(n), rng.randint(1, min(n, 4)))
+        gb = rng.sample(range(n), rng.randint(1, min(n, 4)))
+        opl.insert(rng.randrange(len(opl) + 1),
+                   {"op": "cli_pair", "sched": rng.randint(0, 2 ** 32), "p": rng.choice([0.1, 0.3, 0.3, 0.6]),
+                    "a": {"games": ga, "stem": "batch_a", "style": rng.choice(textstyle.STYLES), "entropy": rng.randint(0, 2 ** 32)},
+                    "b": {"games": gb, "stem": "batch_b", "style": rng.choice(textstyle.STYLES), "entropy": rng.randint(0, 2 ** 32)}})
     return {"cfg": {"klass": klass}, "pool": pool, "ops": opl}
 
 
@@ -349,6 +357,53 @@ def execute(spec, w, ctx):
             w.restart(op.get("entropy", 0))
             events.append([i_op, "restart"])
             continue
+        if kind == "cli_pair":
+            sides = []
+            for x_ in (op["a"], op["b"]):
+                gs = usable(x_.get("games", []))
+                nm = [pool[g]["name"] for g in gs]
+                if not gs or len(set(nm)) != len(nm):
+                    sides = None
+                    break
+                path_ = "inputs/%s.py" % x_["stem"]
+                w.fs.write_text(path_, textstyle.render({pool[g]["name"]: dec(pool[g]["desc"]) for g in gs}, x_.get("style", "repr"),
+                                                        x_.get("entropy", 0)))
+                sides.append((x_, gs, path_))
+            if not sides:
+                continue
+            cfg_p = {"step_cap": budget(sides[0][1]) + budget(sides[1][1])}
+            cap_a, cap_b = {}, {}
+
+            def summ_b(out_):
+                s_ = ops.brief(out_)
+                s_["ret"] = enc(cap_b["ret_obj"]) if "ret_obj" in cap_b else None
+                return s_
+            out_a, res_b = ops.concurrently(
+                w, int(op.get("sched", 0)), float(op.get("p", 0.3)),
+                lambda: ops.solver_cli(w, sides[0][2], True, None, dict(cfg_p), sides[0][0].get("entropy", 0), cap_a),
+                lambda: ops.solver_cli(w, sides[1][2], True, None, dict(cfg_p), sides[1][0].get("entropy", 0), cap_b), summ_b)
+            events.append([i_op, "cli_pair", out_a["status"], res_b["status"]])
+            shapes.append("P")
+            rets = [cap_a.get("ret_obj"), dec(res_b["ret"]) if res_b.get("ret") is not None else None]
+            for (x_, gs, path_), out_, ret_ in zip(sides, (out_a, res_b), rets):
+                if out_["status"] != "ok":
+                    v = viol("I12.3", i_op, "`conditionalrewards.py -f %s -s`, run at the same time as another batch run in the same folder, did not finish: %s" % (
+                        path_, _show(out_)), "batch-aborted")
+                elif ret_ is not None:
+                    v = check_entries(i_op, spec, gs, ret_, ctx, w, states)
+                if v is None and out_["status"] == "ok":
+                    v = _check_report(i_op, w, x_, gs, spec, ctx)
+                if v is not None:
+                    v["msg"] = "two batch runs at the same time: " + v["msg"]
+                    break
+            if v is None:
+                nontrivial = True
+                continue
+            if ctx.known_match(ID, v) is not None:
+                res["known"].append(v)
+                continue
+            res["violation"] = v
+            break
         games = usable(op.get("games", []))
         if not games and op.get("games"):
             continue
